@@ -9,7 +9,8 @@ from vlib import circ, gen
 RULE = ("every circuit with <=2 inputs (+ optional constant) and <=3 gates over {and,buf} x every "
         "output marking (incl. none) x inputs flag, then seeded random DAGs with dead sub-graphs and "
         "flop blackboxes; non-trivial = at least one node is dead or unloaded before the call; "
-        "distinct = distinct (circuit, flag) descriptions")
+        "distinct = distinct (circuit, flag) descriptions"
+        "; circuits with an odd node count carry type strings created at run time (equal, not identical, to the literals)")
 BOUND = "exhaustive: <=2 inputs, <=1 constant, <=2 gates (quick) / <=3 gates (thorough); random: <=14 nodes"
 
 
@@ -54,6 +55,12 @@ def cases(tier, seed):
 
 def run_case(case):
     c = circ.build(case["c"])
+    if len(case["c"]["nodes"]) % 2:
+        # type strings made at run time (as tokens from a parser are): equal to, not identical with, the library's literals
+        for n_ in c.graph.nodes:
+            t_ = c.graph.nodes[n_].get("type")
+            if isinstance(t_, str):
+                c.graph.nodes[n_]["type"] = "".join(list(t_))
     if case.get("pre"):
         c.remove_unloaded(inputs=case["inputs"])
         for op in case["pre"]:
